@@ -1,4 +1,6 @@
 """C20 — the WebSocket relay transport carries the same byte stream as TCP (adaptor clauses)."""
+import re
+
 from mirq import callee, fmt_origin, origin_calls, strip_refs
 from props import c06, net
 
@@ -81,7 +83,51 @@ def run(ctx, rep):
         f_t = targets.get(0, otherwise)
         t_t = otherwise if 0 in targets else targets.get(1, otherwise)
         edges.add((sbb, t_t if f(a, c) else f_t))
-    rep.check("R20.1", "buffered-first", len(edges) >= 1 and pbb not in b.reach_v(avoid_edges=edges),
+    bf_ok = len(edges) >= 1 and pbb not in b.reach_v(avoid_edges=edges)
+    if not bf_ok:
+        # the same clause on the path table: on every path, before the poll, a test found the adaptor buffer empty or the caller
+        # without room (whatever bool temporaries the tests go through)
+        try:
+            prows = b.decision_rows(events=True)
+        except Exception:
+            prows = None
+
+        def truth_of(c):
+            if c[2] == "eq" and len(c[3]) == 1:
+                return c[3][0] != 0
+            if c[2] == "ne" and tuple(c[3]) == (0,):
+                return True
+            if c[2] == "ne" and tuple(c[3]) == (1,):
+                return False
+            return None
+
+        def justifies(c):
+            o = c[4]
+            t = truth_of(c)
+            if t is None:
+                return False
+            if o[0] == "call" and (o[1] or "").endswith("BytesMut::is_empty") and o[3] and is_buf(o[3][0]):
+                return t is True
+            if o[0] == "un" and o[1] == "Not" and o[2][0] == "call" and (o[2][1] or "").endswith("BytesMut::is_empty") and o[2][3] and is_buf(o[2][3][0]):
+                return t is False
+            if rem_cmp(o):
+                f = {"Eq": lambda x, y: x == y, "Ne": lambda x, y: x != y, "Gt": lambda x, y: x > y, "Lt": lambda x, y: x < y, "Ge": lambda x, y: x >= y, "Le": lambda x, y: x <= y}[o[1]]
+                a0, c0 = (0, o[3][1]) if o[2][0] == "call" else (o[2][1], 0)
+                a1, c1 = (1, o[3][1]) if o[2][0] == "call" else (o[2][1], 1)
+                return f(a0, c0) != f(a1, c1) and t == f(a0, c0)
+            return False
+        if prows is not None:
+            polled = 0
+            bf_ok = True
+            for conds, ret, trace in prows:
+                ip = [i for i, e in enumerate(trace) if e[0] == "call" and e[1] == pbb]
+                if not ip:
+                    continue
+                polled += 1
+                if not any(e[0] == "cond" and justifies(e) for e in trace[:ip[0]]):
+                    bf_ok = False
+            bf_ok = bf_ok and polled >= 1
+    rep.check("R20.1", "buffered-first", bf_ok,
               "the next message is polled although buffered bytes could be delivered", b.loc(pt["line"]), sample={"justifying_edges": sorted(edges)})
     # (b)-(f) on the path table of one loop iteration (path-resolved: a helper that reports the polled message through a
     # value of its own, e.g. an enum, is seen through)
@@ -93,9 +139,10 @@ def run(ctx, rep):
         return
 
     def chain(o):
+        """projection names from the value back to its source, looking through `?` (Continue = Ok, Break = Err) and map_err"""
         names = []
         x = o
-        for _ in range(16):
+        for _ in range(24):
             if x[0] == "field":
                 x = x[1]
             elif x[0] == "downcast":
@@ -103,6 +150,12 @@ def run(ctx, rep):
                 x = x[1]
             elif x[0] in ("ref", "deref"):
                 x = x[1]
+            elif x[0] == "call" and (x[1] or "").endswith("ops::try_trait::Try::branch") and x[3]:
+                if names and names[-1] in ("Continue", "Break"):
+                    names[-1] = "Ok" if names[-1] == "Continue" else "Err"
+                x = x[3][0]
+            elif x[0] == "call" and re.search(r"Result::<T, E>::map_err$", x[1] or "") and x[3]:
+                x = x[3][0]
             else:
                 break
         return names, x
@@ -160,7 +213,13 @@ def run(ctx, rep):
 
     def is_(p, names, kind, val):
         c = p["kinds"].get(tuple(names))
-        return c is not None and ((c[0] == "eq" and c[1] == (val,)) if kind == "eq" else (c[0] == "ne" and val in c[1]) or (c[0] == "eq" and val not in c[1]))
+        if c is None:
+            return False
+        if kind == "eq":
+            # Poll / Option / Result have two variants: "not the other one" is "this one"
+            two = len(names) < 3
+            return (c[0] == "eq" and c[1] == (val,)) or (two and c[0] == "ne" and set((0, 1)) - set(c[1]) == {val})
+        return (c[0] == "ne" and val in c[1]) or (c[0] == "eq" and val not in c[1])
     READY, SOME, OK_ = ((), "eq", 0), (("Ready",), "eq", 1), (("Some", "Ready"), "eq", 0)
     msg_paths = [p for p in paths if all(is_(p, *c) for c in (READY, SOME, OK_))]
     bin_paths = [p for p in msg_paths if p["appends"]]
@@ -197,6 +256,8 @@ def run(ctx, rep):
     err_paths = [p for p in paths if is_(p, *READY) and is_(p, *SOME) and is_(p, ("Some", "Ready"), "eq", 1)]
 
     def ready_err(ret):
+        if ret[1].startswith("call:") and "from_residual" in ret[1] and "task::poll::Poll" in ret[1]:
+            return True          # `?` inside the poll function: Poll::Ready(Err(e.into()))
         if ret[1] != "Ready" or len(ret) < 4 or not ret[3]:
             return False
         x = simplify(ret[3][0])
